@@ -6,7 +6,7 @@ from core import Machinery, run_driver
 
 def run(ctx):
     rng = ctx.rng
-    ctx.design_must_hold("sync/CondVar.tla", expect_actions=["Call", "LinLock", "LinUnlock", "WaitBegin", "WaitReturn", "LinSignal", "LinBroadcast", "Spurious", "Ret"], deadlock=False)
+    ctx.design_must_hold("sync/CondVar.tla", expect_actions=["Call", "LinLock", "LinTryT", "LinTryF", "LinUnlock", "WaitBegin", "WaitReturn", "LinSignal", "LinBroadcast", "Spurious", "Ret"], deadlock=False)
     ctx.design_must_hold("sync/BoundedBuffer.tla", cfg="BoundedBuffer_ok.cfg", expect_actions=["Lock", "Check", "Notify", "Unlock", "Wake", "SpuriousW"], allow_unused=("Block",))
     r = ctx.design_check("sync/BoundedBuffer.tla", cfg="BoundedBuffer_broken.cfg")
     if r.ok or r.violation != "liveness":
@@ -94,7 +94,7 @@ def run(ctx):
             evs = [json.loads(x) for x in open(wf[0])]
             # after the broadcast returns, claim that waiter 1 is stuck
             for i, e in enumerate(evs):
-                if e["e"] == "ret" and e["t"] == 0 and i > 0 and evs[i - 1].get("op") == "broadcast":
+                if e["e"] == "ret" and e["t"] == 17 and i > 0 and evs[i - 1].get("op") == "broadcast":
                     cut = evs[: i + 1] + [{"e": "Stuck", "t": 1}]
                     p = traces.write(cut, ctx.path("selftest2.ndjson"))
                     ok, matched, r = tlc.validate_trace("sync/CondLin.tla", p, cfg="CondLin.cfg")
